@@ -80,7 +80,7 @@ FAM_NAMES = None
 def gen_hist(rng, n, select_only=False):
     names = sorted(_m["fams"]) if _m.get("fams") else sorted(CS.families())
     if select_only:
-        names = [x for x in names if x not in ("insert_keys", "insert_values_returning", "update_delete", "dml_embedded_params", "orm_options")]
+        names = [x for x in names if x not in ("insert_keys", "insert_values_returning", "update_delete", "dml_embedded_params", "orm_options", "orm_from_statement_params")]
     hist = []
     cur = rng.choice(names)
     for _ in range(n):
